@@ -706,6 +706,11 @@ class FloatModularDescriptor(BasicDescriptor):
             self.data[instance] = None
             return
 
+        if -self.limit <= val <= self.limit:
+            # already in range: keep the value as given (-limit is a legitimate value, and the
+            # modular reduction below is not exact in floating point)
+            self.data[instance] = val
+            return
         # do modular arithmetic manipulations
         val = (val % (2 * self.limit))  # NB: % and * have same precedence, so it can be super dumb
         self.data[instance] = val if val <= self.limit else val - 2 * self.limit
